@@ -331,7 +331,7 @@ ASSUMPTIONS = (
 def obligations(tier):
   F = qualnames(L.vjp, L._bwd_wrapper, L.value_and_grad, L.jvp, L.custom_vjp, L.pack,
                 nn.vjp, nn.value_and_grad, nn.jvp)
-  v = I(-2, 2)
+  v = I(-2, 2) if tier == 'quick' else I(-6, 6)
   return [
       Ob('vjp_routing', vjp_routing,
          dict(fi=I(0, 3), has_aux=B(), w0=v, w1=v, c0=v, n0=v, x0=v, x1=v, k=v, ct=v),
